@@ -33,7 +33,11 @@ TRUSTED = [
     "torch tensor plumbing (zeros, slicing assignment, nonzero, default_collate, concat, stack) is modelled on lists, "
     "not verified",
     "harness/c17.py: spy rng (delegating to numpy default_rng), shadowed round, torch shim (Generator subclass "
-    "recording manual_seed), case rendering",
+    "recording manual_seed), case rendering; every call of a sequence gets its own spy rng through set_rng (the draws "
+    "are recorded per call; the collator object is the same for all calls of a case)",
+    "DataLoader cases: the collator runs inside forked worker processes of a real torch DataLoader (one copy of the "
+    "collator object per worker, multiprocessing.Value step counter shared); spies and traces live in the workers and "
+    "travel back with the batch",
 ]
 ASSUMPTIONS = [
     "DINO: 0 <= mask_prob <= 1 with int(batch*views*mask_prob) equal to the exact floor (cases where the binary64 "
@@ -43,14 +47,22 @@ ASSUMPTIONS = [
     "encoder/predictor disjointness only claimed where enc_area - n_pred*pred_area > min_keep for the sizes of that "
     "step; outside that premise the real loop may relax the constraint (overlap possible, not claimed) and it never "
     "ends when the encoder block has <= min_keep patches (draws capped, classified RUNAWAY, the calls before it are "
-    "still evaluated; a RUNAWAY with a larger encoder block is reported as a violation, cf. theorem "
-    "ijepa_constrained_ends_when_block_exceeds_min_keep)",
+    "still evaluated; a RUNAWAY with a larger encoder block is reported as a violation, cf. theorems "
+    "ijepa_constrained_ends_when_block_exceeds_min_keep / ijepa_collate_draw_count_bound).  NOTE (genuine-defect "
+    "candidate, outside the property as stated): KDIjepaMaskCollator hangs forever in `while True` whenever the clamped "
+    "encoder block has <= min_keep patches, e.g. small grids with the default min_keep=10; inside the premise this cannot "
+    "happen (premise => encoder area > min_keep => first try accepted: ijepa_no_retry_inside_premise)",
+    "outside the premise the checks are: disjointness at the relaxation level reached (Coq: theorem on the constrained "
+    "loop + exact model comparison; Python: the number of rejected iterations of a sample must suffice for the overlaps "
+    "observed) and the draw-count bound of a whole call",
 ]
-RULE = ("60% DINO / 40% I-JEPA. DINO: grid HxW in 2..20 (not nec. square), views 1..3, batch 1..6, mask_prob from "
-        "{0,.1,.25,.3,.5,.75,.9,1}, ratio pairs from a rational list, min_num_patches 0..9, aspect bounds, x as tensor or "
-        "list of views, 8% ctx=None. I-JEPA: grid 2..20, 1-3 enc and 1-5 pred masks, scales/aspects, min_keep mostly "
-        "inside the premise, tries 1..20, 1-4 calls per instance with varying batch sizes (some ctx=None) plus a twin "
-        "instance with other rngs/batches. non-trivial = DINO: >= 1 non-empty mask with >= 2 blocks drawn; I-JEPA: an "
+RULE = ("60% DINO / 40% I-JEPA. DINO: a case is a SEQUENCE of 1-4 calls on ONE collator object (an epoch with a smaller "
+        "last batch / larger then smaller / smaller then larger / arbitrary batch sizes 1..8, x as tensor or list of views "
+        "per call, 8% of the calls with ctx=None), grid HxW in 2..20 (60% non-square), views 1..3, mask_prob from "
+        "{0,.1,.25,.3,.5,.75,.9,1}, ratio pairs from a rational list, min_num_patches 0..9, aspect bounds. I-JEPA: grid 2..20, 1-3 enc and 1-5 pred masks, scales/aspects, min_keep mostly "
+        "inside the premise, tries 1..20, 1-4 calls per instance with varying batch sizes (same patterns, some ctx=None) plus "
+        "a twin instance with other rngs/batches; grids 65% non-square.  2 (thorough: 60) cases run the collator as collate_fn "
+        "of a real DataLoader with 1-3 forked workers and a smaller last batch. non-trivial = DINO: >= 1 non-empty mask with >= 2 blocks drawn; I-JEPA: an "
         "encoder block that had to drop cells because of a predictor block; distinct by configuration")
 
 MAX_DRAWS_IJEPA = 4000
@@ -161,16 +173,46 @@ def _floor_ok(n, p):
     return int(n * (p[0] / p[1])) == (n * p[0]) // p[1]
 
 
+def dino_calls(case):
+    """the successive calls made on ONE collator object; a case without "calls" (older corpus files) is a single call"""
+    if "calls" in case:
+        return case["calls"]
+    return [{"B": case["B"], "ctx": case["ctx"], "x_list": case["x_list"], "seed": case["seed"]}]
+
+
+def gen_batch_sizes(rng):
+    """batch sizes seen by one collator object: one call / an epoch with a smaller last batch (drop_last=False) /
+    larger then smaller / smaller then larger / arbitrary"""
+    r = rng.random()
+    if r < 0.2:
+        return [rng.choice([1, 2, 3, 4, 5, 6])]
+    if r < 0.45:
+        full = rng.choice([2, 3, 4, 5, 6, 8])
+        return [full] * rng.choice([1, 2, 3]) + [rng.randint(1, full - 1)]
+    if r < 0.6:
+        a = rng.choice([2, 3, 4, 6, 8])
+        return [a, rng.randint(1, a - 1)]
+    if r < 0.75:
+        a = rng.choice([1, 2, 3, 4])
+        return [a, a + rng.randint(1, 4)] + ([rng.randint(1, a)] if rng.random() < 0.5 else [])
+    return [rng.choice([1, 2, 3, 4, 5, 6, 8]) for _ in range(rng.randint(2, 4))]
+
+
 def gen_dino(rng, big=False):
     hi = 20 if big else 12
     H = rng.choice([2, 3, 4, 5, 7, 8, rng.randint(2, hi), rng.randint(2, hi)])
-    W = H if rng.random() < 0.5 else rng.choice([2, 3, 5, 8, rng.randint(2, hi)])
+    W = H if rng.random() < 0.4 else rng.choice([2, 3, 5, 8, rng.randint(2, hi)])
     V = rng.choice([1, 2, 2, 3])
-    B = rng.choice([1, 2, 3, 4, 5, 6])
-    while True:
+    Bs = gen_batch_sizes(rng)
+    if H * W > 100:
+        Bs = [min(b, 4) for b in Bs][:3]
+    B = Bs[0]
+    for _ in range(200):
         p = rng.choice(PROBS)
-        if _floor_ok(B * V, p):
+        if all(_floor_ok(b * V, p) for b in Bs):
             break
+    else:
+        p = [1, 2]
     a, b = sorted([rng.choice(RATIOS), rng.choice(RATIOS)], key=lambda r: Fraction(*r))
     if rng.random() < 0.1:
         a = b
@@ -178,16 +220,18 @@ def gen_dino(rng, big=False):
         b = [1, 2]
         if Fraction(*a) > Fraction(1, 2):
             a = [1, 10]
-    return {"kind": "dino", "H": H, "W": W, "V": V, "B": B, "p": p, "ratio": [a, b],
+    x_list = rng.random() < 0.5
+    calls = [{"B": b, "ctx": rng.random() >= 0.08, "x_list": x_list if rng.random() < 0.8 else not x_list,
+              "seed": rng.randrange(10 ** 6)} for b in Bs]
+    return {"kind": "dino", "H": H, "W": W, "V": V, "p": p, "ratio": [a, b],
             "minp": rng.choice([0, 1, 2, 4, 4, 4, 6, 9]), "min_aspect": rng.choice([0.3, 0.3, 0.5, 0.1, 1.0]),
-            "max_aspect": rng.choice([None, None, 2.0, 3.3]), "seed": rng.randrange(10 ** 6),
-            "x_list": rng.random() < 0.5, "ctx": rng.random() >= 0.08}
+            "max_aspect": rng.choice([None, None, 2.0, 3.3]), "calls": calls}
 
 
 def gen_ijepa(rng, big=False):
     hi = 20 if big else 14
     H = rng.choice([2, 3, 4, 5, 6, 8, 10, 14, rng.randint(2, hi), rng.randint(2, hi)])
-    W = H if rng.random() < 0.6 else rng.choice([2, 3, 5, 8, rng.randint(2, hi)])
+    W = H if rng.random() < 0.35 else rng.choice([2, 3, 5, 8, rng.randint(2, hi), rng.randint(2, hi)])
     nE = rng.choice([1, 1, 2, 3])
     nP = rng.choice([1, 2, 3, 4, 4, 5])
     ps_lo = rng.choice([0.02, 0.05, 0.1, 0.15, 0.2])
@@ -207,14 +251,36 @@ def gen_ijepa(rng, big=False):
         min_keep = rng.choice([0, 0, 1, 2])
     else:
         min_keep = rng.randint(0, max(1, int(H * W * es_lo)))
-    n_calls = rng.choice([1, 1, 2, 3, 4])
-    calls = [{"B": rng.choice([1, 2, 2, 3, 4, 5]), "ctx": rng.random() >= 0.1, "seed": rng.randrange(10 ** 6)}
-             for _ in range(n_calls)]
+    Bs = [min(b, 5) for b in gen_batch_sizes(rng)]
+    calls = [{"B": b, "ctx": rng.random() >= 0.1, "seed": rng.randrange(10 ** 6)} for b in Bs]
     twin = [{"B": rng.choice([1, 2, 3]), "ctx": True, "seed": rng.randrange(10 ** 6)}
             for c in calls if c["ctx"]] if rng.random() < 0.6 else []
     return {"kind": "ijepa", "H": H, "W": W, "patch": rng.choice([1, 1, 2]), "extra": rng.choice([0, 0, 1]),
             "nE": nE, "nP": nP, "pscale": [ps_lo, ps_hi], "escale": [es_lo, es_hi], "aspect": ar,
             "min_keep": min_keep, "tries": rng.choice([1, 2, 5, 20, 20]), "calls": calls, "twin": twin}
+
+
+def gen_loader(rng):
+    """the collator as collate_fn of a REAL torch DataLoader with worker processes (fork): every worker holds its own
+    copy of the collator object and collates a subsequence of the batches, the last batch is smaller (drop_last=False);
+    the I-JEPA step counter is a multiprocessing.Value shared by all workers"""
+    c = gen_dino(rng) if rng.random() < 0.5 else gen_ijepa(rng)
+    if c["kind"] == "ijepa":
+        c["min_keep"] = min(c["min_keep"], 1)       # keep clear of the never-ending loop (encoder block <= min_keep)
+        c["twin"] = []
+    bs = rng.choice([2, 3, 4, 5])
+    n = bs * rng.randint(1, 4) + rng.randint(1, bs - 1)
+    if c["kind"] == "dino":
+        for _ in range(50):
+            if all(_floor_ok(b * c["V"], c["p"]) for b in (bs, n % bs)):
+                break
+            c["p"] = rng.choice(PROBS)
+        else:
+            c["p"] = [1, 2]
+    c["calls"] = []
+    c["loader"] = {"n": n, "batch_size": bs, "workers": rng.choice([1, 2, 2, 3]), "seed": rng.randrange(10 ** 6),
+                   "x_list": rng.random() < 0.5}
+    return c
 
 
 def gen_case(rng, big=False):
@@ -223,8 +289,9 @@ def gen_case(rng, big=False):
 
 def gen_cases(rng, tier):
     if tier == "quick":
-        return [gen_case(rng) for _ in range(420)]
-    return [gen_case(rng) for _ in range(2500)] + [gen_case(rng, big=True) for _ in range(1500)]
+        return [gen_case(rng) for _ in range(300)] + [gen_loader(rng) for _ in range(2)]
+    return ([gen_case(rng) for _ in range(2000)] + [gen_case(rng, big=True) for _ in range(1000)]
+            + [gen_loader(rng) for _ in range(60)])
 
 
 def search_cases(rng, tier):
@@ -245,18 +312,31 @@ def search_cases(rng, tier):
 
 def shrink(case):
     c = case
+    if c.get("loader"):
+        ld = c["loader"]
+        if ld["workers"] > 1:
+            yield {**c, "loader": {**ld, "workers": ld["workers"] - 1}}
+        if ld["n"] > ld["batch_size"] + 1:
+            yield {**c, "loader": {**ld, "n": ld["n"] - ld["batch_size"]}}
+        return
     if c["kind"] == "dino":
-        if c["B"] > 1:
-            yield {**c, "B": c["B"] - 1}
-        if c["V"] > 1:
-            yield {**c, "V": c["V"] - 1}
+        calls = dino_calls(c)
+        c = {k: v for k, v in c.items() if k not in ("B", "ctx", "x_list", "seed")}
+        for i in range(len(calls)):
+            if len(calls) > 1:
+                yield {**c, "calls": calls[:i] + calls[i + 1:]}
+        for i, cl in enumerate(calls):
+            if cl["B"] > 1 and _floor_ok((cl["B"] - 1) * c["V"], c["p"]):
+                yield {**c, "calls": calls[:i] + [{**cl, "B": cl["B"] - 1}] + calls[i + 1:]}
+            if cl["x_list"]:
+                yield {**c, "calls": calls[:i] + [{**cl, "x_list": False}] + calls[i + 1:]}
+        if c["V"] > 1 and all(_floor_ok(cl["B"] * (c["V"] - 1), c["p"]) for cl in calls):
+            yield {**c, "V": c["V"] - 1, "calls": calls}
         for k in ("H", "W"):
             if c[k] > 2:
-                yield {**c, k: c[k] - 1}
-        if c["x_list"]:
-            yield {**c, "x_list": False}
+                yield {**c, k: c[k] - 1, "calls": calls}
         if c["max_aspect"] is not None:
-            yield {**c, "max_aspect": None}
+            yield {**c, "max_aspect": None, "calls": calls}
     else:
         if len(c["calls"]) > 1:
             yield {**c, "calls": c["calls"][:-1], "twin": []}
@@ -301,6 +381,8 @@ def _same(a, b):
 
 
 def run_dino(case):
+    """all calls of the case on ONE collator object; every call has its own spy rng (set_rng) so that the draws are
+    recorded per call"""
     import importlib
     import torch
     mod = importlib.import_module("kappadata.collators.kd_dino_mask_collator")
@@ -309,31 +391,38 @@ def run_dino(case):
         mask_ratio=(rmin, rmax), mask_prob=case["p"][0] / case["p"][1], mask_size=(case["H"], case["W"]),
         num_views=case["V"], min_num_patches=case["minp"], min_aspect=case["min_aspect"],
         max_aspect=case["max_aspect"], dataset_mode="index x", return_ctx=True)
-    trace = []
-    coll.set_rng(SpyRng(case["seed"], trace, MAX_DRAWS_DINO))
-    samples = _batch(case["B"], case["x_list"], case["V"], 1)
-    expected = torch.utils.data.default_collate([s[0] for s in samples])
-    obs = {"status": "ok", "trace": trace}
-    with _Shadow(mod, [trace]):
-        try:
-            if case["ctx"]:
-                out, ctx = coll(samples)
-                m = ctx.get("mask")
-                obs["ctx_keys"] = sorted(ctx.keys())
-                obs["shape"] = list(m.shape)
-                obs["dtype"] = str(m.dtype)
-                obs["mask"] = [["".join("1" if v else "0" for v in row) for row in mm] for mm in m.tolist()] \
-                    if m.dim() == 3 else None
-                obs["passthrough"] = _same(out, expected)
-            else:
-                out = coll.collate(expected, "index x", None)
-                obs["passthrough"] = out is expected
-                obs["mask"] = []
-        except Runaway:
-            obs["status"] = "RUNAWAY"
-        except Exception as e:  # noqa
-            obs["status"] = type(e).__name__ + ": " + str(e)[:200]
-    return obs
+    out_calls = []
+    ref = [None]
+    with _Shadow(mod, ref):
+        for k, cl in enumerate(dino_calls(case)):
+            trace = []
+            ref[0] = trace
+            coll.set_rng(SpyRng(cl["seed"], trace, MAX_DRAWS_DINO))
+            samples = _batch(cl["B"], cl["x_list"], case["V"], 1 + k)
+            expected = torch.utils.data.default_collate([s[0] for s in samples])
+            obs = {"status": "ok", "trace": trace, "B": cl["B"], "ctx": cl["ctx"]}
+            try:
+                if cl["ctx"]:
+                    out, ctx = coll(samples)
+                    m = ctx.get("mask")
+                    obs["ctx_keys"] = sorted(ctx.keys())
+                    obs["shape"] = list(m.shape)
+                    obs["dtype"] = str(m.dtype)
+                    obs["mask"] = [["".join("1" if v else "0" for v in row) for row in mm] for mm in m.tolist()] \
+                        if m.dim() == 3 else None
+                    obs["passthrough"] = _same(out, expected)
+                else:
+                    out = coll.collate(expected, "index x", None)
+                    obs["passthrough"] = out is expected
+                    obs["mask"] = []
+            except Runaway:
+                obs["status"] = "RUNAWAY"
+            except Exception as e:  # noqa
+                obs["status"] = type(e).__name__ + ": " + str(e)[:200]
+            out_calls.append(obs)
+            if obs["status"] != "ok":
+                break
+    return {"calls": out_calls}
 
 
 def _ijepa_instance(mod, case, calls, tag):
@@ -385,7 +474,108 @@ def run_ijepa(case):
             "twin": _ijepa_instance(mod, case, case["twin"], 5)}
 
 
+class _LoaderDataset:
+    def __init__(self, n, x_list, V):
+        self.samples = _batch(n, x_list, V, 3)
+
+    def __len__(self):
+        return len(self.samples)
+
+    def __getitem__(self, i):
+        return self.samples[i]
+
+
+class _LoaderCollate:
+    """collate_fn handed to the DataLoader: the real collator under its spies; called inside the worker processes, each
+    of which has its own (forked) copy of this object and of the collator"""
+
+    def __init__(self, kind, mod, coll, seed, cap):
+        self.kind, self.mod, self.coll, self.seed, self.cap = kind, mod, coll, seed, cap
+        self.k = 0
+
+    def __call__(self, samples):
+        import torch
+        info = torch.utils.data.get_worker_info()
+        wid = info.id if info is not None else -1
+        trace = []
+        self.coll.set_rng(SpyRng(self.seed + 1000 * (wid + 1) + self.k, trace, self.cap))
+        rec = {"wid": wid, "k": self.k, "B": len(samples), "trace": trace, "status": "ok"}
+        self.k += 1
+        out, ctx = None, {}
+        with _Shadow(self.mod, [trace], torch_shim=self.kind == "ijepa"):
+            try:
+                out, ctx = self.coll(samples)
+            except Runaway:
+                rec["status"] = "RUNAWAY"
+            except Exception as e:  # noqa
+                rec["status"] = type(e).__name__ + ": " + str(e)[:200]
+        if self.kind == "ijepa":
+            rec["counter"] = int(self.coll._itr_counter.value)
+        return out, ctx, rec
+
+
+def run_loader(case):
+    import importlib
+    import torch
+    ld = case["loader"]
+    if case["kind"] == "dino":
+        mod = importlib.import_module("kappadata.collators.kd_dino_mask_collator")
+        rmin, rmax = [r[0] / r[1] for r in case["ratio"]]
+        coll = mod.KDDinoMaskCollator(
+            mask_ratio=(rmin, rmax), mask_prob=case["p"][0] / case["p"][1], mask_size=(case["H"], case["W"]),
+            num_views=case["V"], min_num_patches=case["minp"], min_aspect=case["min_aspect"],
+            max_aspect=case["max_aspect"], dataset_mode="index x", return_ctx=True)
+        ds = _LoaderDataset(ld["n"], ld["x_list"], case["V"])
+        cap = MAX_DRAWS_DINO
+    else:
+        mod = importlib.import_module("kappadata.collators.kd_ijepa_mask_collator")
+        H, W, ps = case["H"], case["W"], case["patch"]
+        coll = mod.KDIjepaMaskCollator(
+            input_size=(H * ps + min(case["extra"], ps - 1), W * ps + min(case["extra"], ps - 1)), patch_size=ps,
+            encoder_mask_scale=tuple(case["escale"]), predictor_mask_scale=tuple(case["pscale"]),
+            predictor_aspect_ratio=tuple(case["aspect"]), num_enc_masks=case["nE"], num_pred_masks=case["nP"],
+            min_keep=case["min_keep"], tries=case["tries"], dataset_mode="index x", return_ctx=True)
+        ds = _LoaderDataset(ld["n"], False, 1)
+        cap = MAX_DRAWS_IJEPA
+    loader = torch.utils.data.DataLoader(
+        ds, batch_size=ld["batch_size"], shuffle=False, drop_last=False, num_workers=ld["workers"],
+        collate_fn=_LoaderCollate(case["kind"], mod, coll, ld["seed"], cap), multiprocessing_context="fork",
+        timeout=120)
+    calls = []
+    pos = 0
+    try:
+        for out, ctx, rec in loader:
+            samples = ds.samples[pos:pos + rec["B"]]
+            pos += rec["B"]
+            o = {"status": rec["status"], "trace": rec["trace"], "B": rec["B"], "ctx": True, "wid": rec["wid"], "k": rec["k"]}
+            if rec["status"] == "ok":
+                expected = torch.utils.data.default_collate([s[0] for s in samples])
+                o["passthrough"] = _same(out, expected)
+                o["ctx_keys"] = sorted(ctx.keys())
+                if case["kind"] == "dino":
+                    m = ctx.get("mask")
+                    o["shape"], o["dtype"] = list(m.shape), str(m.dtype)
+                    o["mask"] = [["".join("1" if v else "0" for v in row) for row in mm] for mm in m.tolist()] \
+                        if m.dim() == 3 else None
+                else:
+                    e, p = ctx["encoder_masks"], ctx["predictor_masks"]
+                    o["enc_shape"], o["pred_shape"] = list(e.shape), list(p.shape)
+                    o["dtype"] = [str(e.dtype), str(p.dtype)]
+                    o["enc"], o["pred"] = e.tolist(), p.tolist()
+                    o["counter"] = rec["counter"]
+            calls.append(o)
+    except Exception as e:  # noqa  (a worker died / timed out)
+        calls.append({"status": "loader: " + type(e).__name__ + ": " + str(e)[:200], "trace": [], "B": 0, "ctx": True})
+    expect_b = [ld["batch_size"]] * (ld["n"] // ld["batch_size"]) + ([ld["n"] % ld["batch_size"]] if ld["n"] % ld["batch_size"] else [])
+    obs = {"calls": calls, "expected_batches": expect_b}
+    if case["kind"] == "ijepa":
+        obs["twin"] = []
+    return obs
+
+
 def run_impl(case):
+    if case.get("loader"):
+        return run_loader(case)
     return run_dino(case) if case["kind"] == "dino" else run_ijepa(case)
 
 
@@ -407,15 +597,30 @@ def in_premise(case, sizes):
 
 
 def oracle_dino(case, obs):
+    calls = dino_calls(case)
+    if case.get("loader"):
+        if [o["B"] for o in obs["calls"]] != obs["expected_batches"]:
+            return f"DataLoader delivered batches of sizes {[o['B'] for o in obs['calls']]}, expected {obs['expected_batches']}"
+        calls = [{"B": o["B"], "ctx": True, "x_list": case["loader"]["x_list"]} for o in obs["calls"]]
+    if len(obs["calls"]) != len(calls) and obs["calls"][-1]["status"] == "ok":
+        return "harness: number of observed calls"
+    for k, (cl, o) in enumerate(zip(calls, obs["calls"])):
+        msg = oracle_dino_call(case, cl, o)
+        if msg:
+            return f"call {k} of {len(calls)} on one collator object (batch sizes {[c['B'] for c in calls]}): " + msg
+    return None
+
+
+def oracle_dino_call(case, cl, obs):
     if obs["status"] != "ok":
         return "DINO collator did not return: " + obs["status"]
     if not obs["passthrough"]:
         return "batch data did not pass through unchanged"
-    if not case["ctx"]:
+    if not cl["ctx"]:
         if obs["trace"]:
             return "collate without ctx consumed random draws"
         return None
-    H, W, V, B = case["H"], case["W"], case["V"], case["B"]
+    H, W, V, B = case["H"], case["W"], case["V"], cl["B"]
     if obs["ctx_keys"] != ["mask"]:
         return f"ctx keys {obs['ctx_keys']}"
     if obs["shape"] != [B * V, H, W] or obs["dtype"] != "torch.bool":
@@ -460,6 +665,14 @@ def _rect_dims(row, W):
 def oracle_ijepa(case, obs):
     H, W, nE, nP = case["H"], case["W"], case["nE"], case["nP"]
     sizes_by_step = {}
+    loader = bool(case.get("loader"))
+    if loader:
+        if [o["B"] for o in obs["calls"]] != obs["expected_batches"]:
+            return f"DataLoader delivered batches of sizes {[o['B'] for o in obs['calls']]}, expected {obs['expected_batches']}"
+        all_seeds = sorted(ev[1] for call in obs["calls"] for ev in call["trace"] if ev[0] == "S")
+        if all(call["status"] == "ok" for call in obs["calls"]) and all_seeds != list(range(len(obs["calls"]))):
+            return (f"DataLoader workers: the {len(obs['calls'])} batches were collated at steps {all_seeds}; with the shared "
+                    f"step counter every step 0..{len(obs['calls']) - 1} is used exactly once")
     for name in ("calls", "twin"):
         step = -1
         for k, call in enumerate(obs[name]):
@@ -469,6 +682,8 @@ def oracle_ijepa(case, obs):
                 step += 1
                 sizes, raw = ijepa_sizes(case, call)
                 seeds = [ev[1] for ev in call["trace"] if ev[0] == "S"]
+                if loader and len(seeds) == 1:
+                    step = seeds[0]          # whatever the other workers left in the shared counter
                 if seeds != [step]:
                     return f"{where}: generator seeded with {seeds}, step counter says {step}"
                 if sizes is None:
@@ -492,7 +707,7 @@ def oracle_ijepa(case, obs):
                 return f"{where}: I-JEPA collator did not return: {call['status']}"
             if not call["passthrough"]:
                 return f"{where}: batch data did not pass through unchanged"
-            if call["counter"] != step:
+            if (call["counter"] < step) if loader else (call["counter"] != step):
                 return f"{where}: step counter is {call['counter']}, expected {step}"
             if not call["ctx"]:
                 if call["trace"]:
@@ -538,11 +753,60 @@ def oracle_ijepa(case, obs):
                 n_int = sum(1 for ev in call["trace"] if ev[0] == "I")
                 if n_int != 2 * B * (nE + nP):
                     return f"{where}: premise holds but the constrained sampling retried ({n_int} integer draws)"
+            else:
+                msg = relaxed_disjointness(case, call, sizes)
+                if msg:
+                    return f"{where}: {msg}"
+            if eh * ew > case["min_keep"] and case["tries"] >= 1:
+                n_int = sum(1 for ev in call["trace"] if ev[0] == "I")
+                bound = B * (2 * nP + nE * 2 * (nP * case["tries"] + 1))
+                if n_int > bound:
+                    return (f"{where}: {n_int} integer draws for a batch of {B}, more than B*(2*nP + nE*2*(nP*tries+1)) = "
+                            f"{bound} although the encoder block {eh}x{ew} has more than min_keep patches")
             for ev in call["trace"]:
                 if ev[0] == "I" and not ev[1] <= ev[3] < ev[2]:
                     return f"oracle contract: integers({ev[1]},{ev[2]}) returned {ev[3]}"
                 if ev[0] == "R" and ev[1] < 0:
                     return f"oracle contract: int(round(sqrt(..))) returned {ev[1]}"
+    return None
+
+
+def relaxed_disjointness(case, call, sizes):
+    """outside the premise: the integer draws of a call are, per sample, 2 per predictor block (bounds H-ph, W-pw) followed
+    by 2 per iteration of the constrained loops (bounds H-eh, W-ew).  If the two kinds can be told apart by their bounds,
+    sample b made R_b encoder iterations; then there must be a split R_b = sum_j (n_j + 1) over its encoder masks such that
+    encoder mask j shares no patch with the first max(nP - n_j // tries, 0) predictor masks of the sample."""
+    H, W, nE, nP, T = case["H"], case["W"], case["nE"], case["nP"], case["tries"]
+    ph, pw, eh, ew = sizes
+    if (ph, pw) == (eh, ew) or T < 1:
+        return None
+    ints = [ev for ev in call["trace"] if ev[0] == "I"]
+    pairs = [(ints[i][2], ints[i + 1][2]) for i in range(0, len(ints) - 1, 2)]
+    B = call["B"]
+    pos = 0
+    for b in range(B):
+        if pairs[pos:pos + nP] != [(H - ph, W - pw)] * nP:
+            return None                       # not the layout described above: nothing is claimed here
+        pos += nP
+        r = 0
+        while pos < len(pairs) and pairs[pos] == (H - eh, W - ew):     # the next sample starts with predictor draws
+            r += 1
+            pos += 1
+        rejected = r - nE
+        if rejected < 0:
+            return None
+        encs = [set(call["enc"][j * B + b]) for j in range(nE)]
+        preds = [set(call["pred"][q * B + b]) for q in range(nP)]
+        # smallest number of rejections mask j needs: the first level at which it avoids the predictor blocks it must avoid
+        need = []
+        for e in encs:
+            clean = 0                          # e avoids the first `clean` predictor blocks
+            while clean < nP and not (e & preds[clean]):
+                clean += 1
+            need.append(max(nP - clean, 0) * T)
+        if sum(need) > rejected:
+            return (f"sample {b}: {rejected} rejected encoder iterations (tries={T}) cannot explain the overlaps: the encoder "
+                    f"masks would need at least {need} rejections to be allowed to overlap the predictor blocks they overlap")
     return None
 
 
@@ -559,8 +823,10 @@ def coq_applicable(case, obs):
     if "harness_exception" in obs:
         return False
     if case["kind"] == "dino":
-        return obs["status"] == "ok" and obs.get("mask") is not None
+        return any(c["status"] == "ok" and c.get("mask") is not None for c in _ok_prefix(obs["calls"]))
     # calls are rendered up to the first one that did not return (RUNAWAY outside the premise ends an instance)
+    if case.get("loader"):
+        return any(c["status"] == "ok" for c in obs["calls"])
     return any(c["status"] == "ok" for c in _ok_prefix(obs["calls"]) + _ok_prefix(obs["twin"]))
 
 
@@ -598,12 +864,33 @@ def coq_case(case, obs):
         r32 = Fraction(float(np.float32(case["ratio"][1][0] / case["ratio"][1][1])))   # what linspace ends with
         cfg = Rec(dH=case["H"], dW=case["W"], dV=case["V"], dMinP=case["minp"], dPn=case["p"][0], dPd=case["p"][1],
                   dRn=r32.numerator, dRd=r32.denominator)
-        masks = [[[ch == "1" for ch in row] for row in m] for m in obs["mask"]]
-        return coq(C("CDino", cfg, bool(case["ctx"]), case["B"], coq_trace(obs["trace"]), masks))
+        rendered = []
+        for o in _ok_prefix(obs["calls"]):
+            if o.get("mask") is None:
+                break
+            if not o["ctx"]:
+                rendered.append(C("DCall", False, o["B"], coq_trace(o["trace"]), []))
+                continue
+            masks = [[[ch == "1" for ch in row] for row in m] for m in o["mask"]]
+            rendered.append(C("DCall", bool(o["ctx"]), o["B"], coq_trace(o["trace"]), masks))
+        return coq(C("CDino", cfg, rendered))
     cfg = Rec(jH=case["H"], jW=case["W"], jNEnc=Nat(case["nE"]), jNPred=Nat(case["nP"]), jMinKeep=case["min_keep"],
               jTries=case["tries"])
     sizes = {}
     insts = []
+    if case.get("loader"):
+        # every batch was collated by some worker at the step it found in the shared counter
+        for call in obs["calls"]:
+            if call["status"] != "ok":
+                continue
+            seeds = [ev[1] for ev in call["trace"] if ev[0] == "S"]
+            step = seeds[0] if len(seeds) == 1 else 0
+            _, raw = ijepa_sizes(case, call)
+            sizes.setdefault(step, raw or (0, 0, 0, 0))
+            insts.append((step - 1, [C("JCall", True, call["B"], coq_trace(call["trace"], skip_rounds=True),
+                                      call["enc"], call["pred"])]))
+        size_list = [tuple(sizes.get(s, (0, 0, 0, 0))) for s in range(max(sizes, default=-1) + 1)]
+        return coq(C("CIjepa", cfg, size_list, insts))
     for name in ("calls", "twin"):
         step = -1
         rendered = []
@@ -614,7 +901,7 @@ def coq_case(case, obs):
                 sizes.setdefault(step, raw or (0, 0, 0, 0))
             rendered.append(C("JCall", bool(call["ctx"]), call["B"], coq_trace(call["trace"], skip_rounds=True),
                               call["enc"], call["pred"]))
-        insts.append(rendered)
+        insts.append((-1, rendered))
     size_list = [tuple(sizes[s]) for s in range(len(sizes))]
     return coq(C("CIjepa", cfg, size_list, insts))
 
@@ -627,17 +914,42 @@ def features(case, obs):
     if "harness_exception" in obs:
         yield "harness_exception"
         return
+    if case.get("loader"):
+        yield "%s.DataLoader workers=%d" % (case["kind"], case["loader"]["workers"])
+        yield "%s.DataLoader batches collated by %d different worker copies of the collator" % (
+            case["kind"], len({c.get("wid") for c in obs["calls"]}))
+        if case["kind"] == "ijepa":
+            seeds = [ev[1] for call in obs["calls"] for ev in call["trace"] if ev[0] == "S"]
+            if seeds != sorted(seeds):
+                yield "ijepa.DataLoader steps not in batch order (workers overtook each other)"
     if case["kind"] == "dino":
-        yield "dino.status=" + obs["status"].split(":")[0]
-        yield "dino.ctx=%s" % case["ctx"]
-        yield "dino.x_list=%s" % case["x_list"]
+        calls = dino_calls(case)
+        if case.get("loader"):
+            calls = [{"B": o["B"], "ctx": True, "x_list": case["loader"]["x_list"]} for o in obs["calls"]]
+        yield "dino.calls=%d" % len(calls)
+        yield "dino.grid=%s" % ("square" if case["H"] == case["W"] else "non-square")
         yield "dino.cells=%s" % ("<=25" if case["H"] * case["W"] <= 25 else "<=100" if case["H"] * case["W"] <= 100 else ">100")
-        if obs.get("mask"):
-            counts = [sum(row.count("1") for row in m) for m in obs["mask"]]
-            yield "dino.nonempty=%s" % min(sum(1 for c in counts if c), 4)
-            n_blocks = sum(1 for ev in obs["trace"] if ev[0] == "I") // 2
-            yield "dino.blocks=%s" % ("0" if n_blocks == 0 else "1-5" if n_blocks <= 5 else "6-30" if n_blocks <= 30 else ">30")
+        bs = [c["B"] for c in calls if c["ctx"]]
+        budgets = [(b * case["V"] * case["p"][0]) // case["p"][1] for b in bs]
+        if any(x > y for x, y in zip(bs, bs[1:])):
+            yield "dino.seq: larger batch then smaller batch"
+        if any(x < y for x, y in zip(bs, bs[1:])):
+            yield "dino.seq: smaller batch then larger batch"
+        if any(x > y for x, y in zip(budgets, budgets[1:])):
+            yield "dino.seq: mask budget shrinks between calls"
+        if len({c["x_list"] for c in calls}) > 1:
+            yield "dino.seq: x as tensor and as list of views"
+        for cl, o in zip(calls, obs["calls"]):
+            yield "dino.status=" + o["status"].split(":")[0]
+            yield "dino.ctx=%s" % cl["ctx"]
+            yield "dino.x_list=%s" % cl["x_list"]
+            if o.get("mask"):
+                counts = [sum(row.count("1") for row in m) for m in o["mask"]]
+                yield "dino.nonempty=%s" % min(sum(1 for c in counts if c), 4)
+                n_blocks = sum(1 for ev in o["trace"] if ev[0] == "I") // 2
+                yield "dino.blocks=%s" % ("0" if n_blocks == 0 else "1-5" if n_blocks <= 5 else "6-30" if n_blocks <= 30 else ">30")
     else:
+        yield "ijepa.grid=%s" % ("square" if case["H"] == case["W"] else "non-square")
         for name in ("calls", "twin"):
             for call in obs[name]:
                 yield "ijepa.status=" + call["status"].split(":")[0]
@@ -658,12 +970,17 @@ def nontrivial_key(case, obs):
     if "harness_exception" in obs:
         return None
     if case["kind"] == "dino":
-        if obs["status"] != "ok" or not obs.get("mask"):
+        good = False
+        for o in obs["calls"]:
+            if o["status"] != "ok" or not o.get("mask"):
+                continue
+            n_blocks = sum(1 for ev in o["trace"] if ev[0] == "I") // 2
+            if n_blocks >= 2 and any("1" in row for m in o["mask"] for row in m):
+                good = True
+        if not good:
             return None
-        n_blocks = sum(1 for ev in obs["trace"] if ev[0] == "I") // 2
-        if n_blocks < 2 or not any("1" in row for m in obs["mask"] for row in m):
-            return None
-        return ("dino", case["H"], case["W"], case["V"], case["B"], tuple(case["p"]), str(case["ratio"]), case["minp"])
+        return ("dino", case["H"], case["W"], case["V"], tuple(c["B"] for c in obs["calls"]), tuple(case["p"]),
+                str(case["ratio"]), case["minp"])
     for call in obs["calls"]:
         if call["status"] == "ok" and call["ctx"]:
             sizes, _ = ijepa_sizes(case, call)
